@@ -1,4 +1,5 @@
 import TinsModel.Follower.Spec
+import TinsModel.Follower.Defaults
 import Driver.Util
 /- line-protocol driver for property C07 (StreamFollower): model mode and spec (oracle) mode.
    Line formats: see harness/c07_follower.cpp. -/
@@ -46,9 +47,11 @@ def showEv {κ} (ooo : Bool) : Ev κ → Option String
   | .closed _ sid => some s!"closed {showSid sid}"
   | .term _ sid r ch by_ => some s!"term {showSid sid} {reasonName r} chunks={ch} bytes={by_}"
 
-def parseCfg (ws : List String) : Cfg × Bool :=
-  ({ attach := kvNat ws "attach" 0 == 1, maxChunks := kvNat ws "maxc" 512, maxBytes := kvNat ws "maxb" 3145728,
-     keepAlive := kvNat ws "ka" 300000000, acl := kvNat ws "acl" 1 == 1 }, kvNat ws "ooo" 0 == 1)
+/-- a limit a case line does not mention keeps the value of a default-constructed `StreamFollower`: `dflt` is
+    `Cfg.ofSource` (generated from the current source) on the model side and `Cfg.documented` on the oracle's side -/
+def parseCfg (dflt : Cfg) (ws : List String) : Cfg × Bool :=
+  ({ attach := kvNat ws "attach" 0 == 1, maxChunks := kvNat ws "maxc" dflt.maxChunks, maxBytes := kvNat ws "maxb" dflt.maxBytes,
+     keepAlive := kvNat ws "ka" dflt.keepAlive, acl := kvNat ws "acl" 1 == 1 }, kvNat ws "ooo" 0 == 1)
 
 def parsePkt (ws : List String) : Option Pkt :=
   match ws with
@@ -68,7 +71,7 @@ def parsePkt (ws : List String) : Option Pkt :=
   | _ => none
 
 structure MState where
-  cfg : Cfg := ⟨false, 512, 3145728, 300000000, true⟩
+  cfg : Cfg := Cfg.ofSource
   ooo : Bool := false
   F : Model := Follower.empty
 
@@ -80,7 +83,7 @@ def findStatus (F : Model) (v6 : Bool) (a ap b bp : Nat) : String :=
 def step (st : MState) (line : String) : MState × String :=
   let ws := words line
   match ws with
-  | "case" :: rest => let (c, o) := parseCfg rest; ({ cfg := c, ooo := o, F := Follower.empty }, "case")
+  | "case" :: rest => let (c, o) := parseCfg Cfg.ofSource rest; ({ cfg := c, ooo := o, F := Follower.empty }, "case")
   | "decl" :: _ => (st, "decl")
   | ["find", fam, a, ap, b, bp] =>
     match hexToNat a, ap.toNat?, hexToNat b, bp.toNat? with
@@ -154,7 +157,7 @@ def specStep (o : Oracle) (line : String) : Oracle × String :=
   | [op, out] =>
     let ws := words op
     match ws with
-    | "case" :: rest => ({ cfg := (parseCfg rest).1 }, "ok")
+    | "case" :: rest => ({ cfg := (parseCfg Cfg.documented rest).1 }, "ok")
     | ["decl", fam, a, ap, b, bp, isn, hex] =>
       match hexToNat a, ap.toNat?, hexToNat b, bp.toNat?, isn.toNat?, parseHex hex with
       | some a, some ap, some b, some bp, some isn, some d =>
